@@ -377,6 +377,7 @@ type CAOpts struct {
 	EKUs     [][]int // extended key usages
 	NoAKI    bool
 	NoSKI    bool
+	SKI      []byte // subject key identifier to carry instead of the hash of the key (the issuer of a CA certificate chooses it freely)
 	SignWith *Key // forge: sign with this key instead of the parent's
 }
 
@@ -389,7 +390,11 @@ func NewCA(cn string, k *Key, parent *Cert, o CAOpts) *Cert {
 	exts = append(exts, ExtKeyUsage(0x06, 1))
 	if !o.NoSKI {
 		ski := k.KeyHash()
-		exts = append(exts, ExtSKI(ski[:20]))
+		if o.SKI != nil {
+			exts = append(exts, ExtSKI(o.SKI))
+		} else {
+			exts = append(exts, ExtSKI(ski[:20]))
+		}
 	}
 	if !o.NoAKI {
 		aki := parent.T.Key.KeyHash()
